@@ -47,11 +47,22 @@ def run(ctx):
                 for x in nodes:
                     if isinstance(x, XmlElement):
                         if x.name == "a:blip" and x.attributes.get("r:link") is not None and x.attributes["r:link"] not in rids:
-                            continue
+                            if x.attributes.get("r:embed") is None:
+                                continue
+                            x = XmlElement(x.name, {k: v for k, v in x.attributes.items() if k != "r:link"}, x.children)
                         x = XmlElement(x.name, x.attributes, prune(x.children))
                     out.append(x)
                 return out
             pkg.body = prune(pkg.body)
+            # domain of the property: every image has a content type (the file name is "the subtype of the image's content type");
+            # an image part of undeclared, unknown type makes the command fail with AttributeError — noted in DESIGN.md §13, not claimed
+            declared = {e for e, _ in pkg.content_types["defaults"]}
+            for mname in pkg.media:
+                ext = mname.rpartition(".")[2]
+                if ext.lower() not in ("png", "gif", "jpeg", "jpg", "tif", "tiff", "bmp") and ext not in declared \
+                        and ("/" + mname) not in [o[0] for o in pkg.content_types["overrides"]]:
+                    pkg.content_types["defaults"].append((ext, "image/x-" + ext.lower()))
+                    declared.add(ext)
             if pkg.media and rng.random() < 0.4:
                 # byte-identical images (a logo used twice) are still separate images
                 same = bytes(rng.randrange(256) for _ in range(9))
